@@ -5,6 +5,8 @@ from __future__ import annotations
 import itertools
 import json
 import random
+import threading
+import time
 
 from mbt import batch, tlc
 
@@ -114,6 +116,52 @@ def run(ctx):
             cases.append({"k": "read", "items": [[ord(c) for c in it] if isinstance(it, str) else list(it) for it in items],
                           "ops": [list(o) for o in ops], "results": res, "exc": exc})
             metas.append({"binary": binary, "real_channel": True})
+        # the other ways a channel can end under a reading file: our own close with items still unread (they stay readable, then EOF),
+        # the peer dropping its end while it keeps a callback ("sendonly" here), the whole gateway going away; reads are repeated at EOF.
+        # A read that blocks is reported as exception "Hang".
+        for i in range(12 if ctx.quick else 120):
+            mode = ("local-close", "peer-drop", "gateway-exit", "local-close-proxy")[i % 4]
+            binary = rng.random() < 0.5
+            items = [(bytes(rng.choice([10, 97, 98]) for _ in range(rng.randint(1, 4))) if binary
+                      else "".join(rng.choice("ab\n") for _ in range(rng.randint(1, 4)))) for _ in range(rng.randint(1, 4))]
+            ops = [rng.choice(OPS) for _ in range(rng.randint(1, 5))] + [("read", 50), ("readline",), ("read", 3), ("readline",)]
+            g2 = execnet.makegateway("popen") if mode == "gateway-exit" else gw
+            ch0 = None
+            if mode == "peer-drop":
+                ch0 = g2.remote_exec("c = channel.gateway.newchannel()\nc.setcallback(lambda x: None)\nchannel.send(c)\n"
+                                     "for x in channel.receive(): c.send(x)\ndel c\nimport gc\ngc.collect()\nchannel.receive()")
+                ch = ch0.receive(20)
+                ch0.send(items)
+            else:
+                ch = g2.remote_exec("for x in channel.receive(): channel.send(x)\nchannel.receive()")
+                ch.send(items)
+            for _w in range(600):  # every item is in the queue before the channel ends
+                if ch._items.qsize() >= len(items):
+                    break
+                time.sleep(0.005)
+            f = ch.makefile("r", proxyclose=(mode == "local-close-proxy"))
+            if mode == "local-close":
+                ch.close()
+            elif mode == "local-close-proxy":
+                f.close()
+            elif mode == "gateway-exit":
+                g2.exit()
+                g2.join(10)
+            else:
+                for _w in range(600):
+                    if ch._receiveclosed.is_set():
+                        break
+                    time.sleep(0.005)
+            box = {}
+            th = threading.Thread(target=lambda: box.update(r=do_ops(f, ops)), daemon=True)
+            th.start()
+            th.join(15)
+            res, exc = box.get("r", ([], "Hang"))
+            cases.append({"k": "read", "items": [[ord(c) for c in it] if isinstance(it, str) else list(it) for it in items],
+                          "ops": [list(o) for o in ops], "results": res, "exc": exc})
+            metas.append({"binary": binary, "real_channel": True, "ended_by": mode})
+            if ch0 is not None:
+                ch0.send(None)
         for proxyclose in (False, True):
             for _ in range(5 if ctx.quick else 40):
                 writes = [(bytes(rng.choice([10, 97]) for _ in range(rng.randint(0, 5))) if rng.random() < 0.5 else
